@@ -299,6 +299,19 @@ def _enum_reserved(r: str) -> bool:
     return enum_callers.enum_reserved(r)
 
 
+_RESOLVER_EXCLUDES: list[str] | None = None
+
+
+def _mro_reserved_for_call(excl: list[str]) -> bool:
+    """`mro` is reserved for one call of the enum resolver when the caller's excludes hold it or the resolver adds it by itself
+    (read off the source, Gen/EnumSites); a caller that relies on neither is a matter of the CALL SITE (C09's enum_call_sites_reviewed
+    and the enum documents at every caller, enum_callers.campaign_names), not of this call"""
+    global _RESOLVER_EXCLUDES
+    if _RESOLVER_EXCLUDES is None:
+        _RESOLVER_EXCLUDES = enum_sites.resolver_facts()["excludes"]
+    return "mro" in excl or "mro" in _RESOLVER_EXCLUDES
+
+
 def oracle_name(ck: Check, camp, kind: str, cfg: Cfg, inp: dict, r: str, excl: list[str], uc: bool) -> None:
     """C07's statement about one result of the real get_valid_name (function level)."""
     base = {"oracle": "get_valid_name", "kind": kind, "prefix_ok": cfg.prefix_ok()}
@@ -306,7 +319,7 @@ def oracle_name(ck: Check, camp, kind: str, cfg: Cfg, inp: dict, r: str, excl: l
         ck.fail({**base, "mechanism": "illegal_identifier"}, inp, f"result {r!r} is not a legal non-keyword identifier")
     elif r in excl:
         ck.fail({**base, "mechanism": "not_unique"}, inp, f"result {r!r} is one of the excluded names")
-    elif kind == "enum" and (r == "mro" or (cfg.prefix_ok() and _enum_reserved(r))):
+    elif kind == "enum" and ((r == "mro" and _mro_reserved_for_call(excl)) or (r != "mro" and cfg.prefix_ok() and _enum_reserved(r))):
         ck.fail({**base, "mechanism": "reserved"}, inp,
                 f"enum member name {r!r} is reserved by enum.Enum (attribute such as mro, _sunder_, __dunder__ or __private name)")
     elif kind == "pydantic" and not uc and not cfg.cap:
